@@ -63,7 +63,8 @@ MCUseCli == {"tp", "um", "fp"}
 MCUFilesU == {"u"}
 MCEmitCli == {"goto", "refs", "unused", "rff"}
 MCLevelsChain == [l \in 0..2 |-> {"absent", "def", "override"}]
-MCSameChain == {"none", "def", "override"}
+\* "defover": a fixture and, further down the SAME file, its self-requesting override (two links of the chain in one file)
+MCSameChain == {"none", "def", "override", "defover"}
 \* {"cs"}: a conftest in a SIBLING directory (its name a string prefix of the chain directory's) defines the name too
 MCExtraChain == {{}, {"pl"}, {"tp"}, {"pl", "tp"}, {"plo"}, {"plo", "tp"}, {"cs"}, {"cs", "tp"}}
 MCLevelsSmall == [l \in 0..2 |-> CASE l = 0 -> {"absent", "def", "star"}
@@ -77,7 +78,8 @@ MCExtraAll  == SUBSET {"cs", "o", "m", "pl", "tp"}
 \* pick the same one
 MCExtraFew  == {{}, {"cs"}, {"pl", "tp"}, {"tp", "tp2"}}
 MCUseKinds  == {"tp", "fp", "um", "uc", "pm", "ip"}
-MCUseTP     == {"tp", "fp"}
+\* "tt": two tests of one file request the name (every usage of a file must be judged on its own)
+MCUseTP     == {"tp", "fp", "tt"}
 MCUFiles    == {"u", "c2"}
 MCRevNo     == {FALSE}
 MCRevBoth   == {FALSE, TRUE}
@@ -115,10 +117,12 @@ SameItems(sk) ==
     CASE sk = "def" -> <<DefN>>
       [] sk = "def2" -> <<DefN, DefN>>
       [] sk = "override" -> <<OverN>>
+      [] sk = "defover" -> <<DefN, OverN>>
       [] OTHER -> <<>>
 
 UseItems(uk) ==
     CASE uk = "tp" -> <<Test("test_1", <<"n">>)>>
+      [] uk = "tt" -> <<Test("test_1", <<"n">>), Test("test_2", <<"n">>)>>
       [] uk = "fp" -> <<PlainDef("w", <<"n">>)>>
       [] uk = "um" -> <<TestM("test_1", <<>>, <<"n">>, <<>>, <<>>)>>
       [] uk = "uc" -> <<TestM("test_1", <<>>, <<>>, <<"n">>, <<>>)>>
